@@ -146,10 +146,11 @@ pub fn shrink(program: &Program, fails: &mut dyn FnMut(&Program) -> bool, budget
         for i in 0..best.top.len()
         {
             let mut cand = best.clone();
-            if cand.top[i].via != Via::Commands || !cand.top[i].settle
+            if cand.top[i].via != Via::Commands || !cand.top[i].settle || cand.top[i].update
             {
                 cand.top[i].via = Via::Commands;
                 cand.top[i].settle = true;
+                cand.top[i].update = false;
                 if try_candidate(cand, &mut best, &mut evals) { progress = true; }
             }
             // shrink bundles
